@@ -409,9 +409,35 @@ class Expander:
         key = (id(expr), at.id if at is not None else None)
         if key in self._memo:
             return self._memo[key]
-        t = to_term(expr, self.scope(at))
+        t = to_term(expr, self._comp_scope(expr, self.scope(at)))
         self._memo[key] = t
         return t
+
+    def _comp_scope(self, expr, sc):
+        """Bind the variables of comprehensions / lambdas that enclose `expr`."""
+        chain = []
+        n = getattr(expr, '_parent', None)
+        child = expr
+        while n is not None and not isinstance(n, ast.stmt):
+            if isinstance(n, (ast.ListComp, ast.SetComp, ast.GeneratorExp, ast.DictComp)):
+                chain.append((n, child))
+            elif isinstance(n, ast.Lambda) and child is n.body:
+                chain.append((n, child))
+            child = n
+            n = getattr(n, '_parent', None)
+        for (comp, child) in reversed(chain):
+            if isinstance(comp, ast.Lambda):
+                sc = sc.child({a.arg: ('param', a.arg) for a in comp.args.args})
+                continue
+            for g in comp.generators:
+                if child is g.iter and g is comp.generators[0]:
+                    break
+                it = to_term(g.iter, sc)
+                loop_id = '{}:{}'.format(g.iter.lineno, g.iter.col_offset)
+                sc = sc.child(_bind_target(g.target, ('elem', it, loop_id)))
+                if child is g.iter or child in g.ifs:
+                    break
+        return sc
 
     def raw(self, expr):
         """Unexpanded term (local names stay ('name', id))."""
